@@ -242,6 +242,26 @@ def run(ctx):
         g = Flow(P, rcl, cg=cg).guards(i)
         ctx.check(Xr(rcl.nodes[i]["args"][1]) == "param:size" and ("*has_memory_reclaim_opt", True) in g, "memory.reclaim-size", "provenance", rcl.loc(i), "memory.reclaim receives the requested size when supported",
                   "memory.reclaim written with " + Xr(rcl.nodes[i]["args"][1]))
+    # the bound 'at most max_probe x (usage - floor) bytes' is per tick: the requested size reaches the kernel exactly once -
+    # no loop around the memory.reclaim write anywhere between the tick and the file
+    wmr = ctx.fn1("Oomd::Fs::writeMemReclaimAt")
+    chain = [(wmr, wmr.calls("writeControlFileAt", "Fs::writeControlFileAt"), "the write of memory.reclaim"),
+             (rcl, rcl.calls("Fs::writeMemReclaimAt"), "Fs::writeMemReclaimAt"),
+             (tib, tib.calls("Senpai::reclaim"), "Senpai::reclaim")]
+    n_once = 0
+    for f_, sites, what in chain:
+        ctx.use(f_)
+        for i in sites:
+            n_once += 1
+            inl = [l for l in loops(f_) if l["stmt"] is not None and l["stmt"] in list(f_.ancestors(i))]
+            fo = Flow(P, f_, events={j: [("set", "requested")] for j in sites}, cg=cg)
+            twice = fo.may(i, "requested")
+            ctx.check(not inl and not twice, "reclaim-requested-once-per-tick:%s" % short(f_), "loop-shape + at-most-once", f_.loc(i),
+                      "%s happens at most once per call, outside any loop" % what,
+                      "%s sits in a loop or can be reached twice in %s: one tick can ask the kernel for a multiple of max_probe x (usage - floor) bytes "
+                      "(e.g. by retrying the full size after a partial reclaim reported as EAGAIN)" % (what, short(f_)))
+    ctx.counters["reclaim_request_sites"] = n_once
+    ctx.floor("reclaim_request_sites", 3, "memory.reclaim write, its caller in reclaim() and reclaim()'s caller in tick_immediate_backoff")
     rm = ctx.fn1("Oomd::Senpai::resetMemhigh")
     init, v = local_init(rm, "value")
     ctx.check(v is not None and "numeric_limits" in rm.text(init) and "max()" in rm.text(init), "reset-writes-max", "value-shape", rm.loc(), "reset writes max", "reset writes " + (rm.text(init) if v else "?"))
